@@ -72,6 +72,24 @@ def cases(tier, rng):
     # the two extreme corners of the generator range
     yield J('line_walk', -2 ** 20, -2 ** 20, 2 ** 20, 2 ** 20 - 1)
     yield J('line_walk', 2 ** 20, -2 ** 20, -2 ** 20, 1)
+    # ---- thick lines: Styled<Line>::pixels(), order included; styled bounding box
+    RT, WT = (7, 9) if tier == 'quick' else (12, 12)
+    for (x1, y1) in [(x, y) for x in range(-RT, RT + 1) for y in range(-RT, RT + 1)]:
+        for w in range(0, WT + 1):
+            # Bresenham and ParallelsIterator are relative to start: lines from the origin in every direction ...
+            yield J('thick_pixels', 0, 0, x1, y1, w)
+            yield J('line_sbb', 0, 0, x1, y1, w)
+    # ... and the full grid of end point pairs on a smaller radius
+    RS = 3 if tier == 'quick' else 5
+    for l in grid_lines(RS):
+        for w in (0, 1, 2, 3, 4, 5, 8):
+            yield J('thick_pixels', *l, w)
+    n = 1500 if tier == 'quick' else 20000
+    for _ in range(n):
+        w = rng.choice([0, 1, 2, 3, 4, 5, 6, 7, 9, 12, 20, 33])
+        yield J('thick_pixels', *long_line(rng, rng.choice([10, 30, 80])), w)
+        yield J('line_sbb', *long_line(rng, rng.choice([10, 30, 80, 1000])), w)
+        yield J('thick_digest', *long_line(rng, rng.choice([300, 2000])), rng.choice([1, 2, 3, 5, 8, 13, 40]))
 
 
 def search(tier, rng):
